@@ -859,7 +859,7 @@ Definition flush_dirty (s : shared') : shared' :=
 
 Definition process_keyevent (e : editor') (ev : keyevent) : outcome (editor' * behavior) :=
   let s0 := set_notice (set_lifetime (sh e) (lifetime (sh e) + 1)%N) [] in
-  let s1 := match last s0 with BCommit => set_commit s0 [] | _ => s0 end in
+  let s1 := set_commit s0 [] in
   do r <- match st e with
           | Entering => do r <- entering_next s1 ev; Ok (apply_transition (fst r) Entering (snd r))
           | EnteringSyllable => do r <- entering_syllable_next s1 ev; Ok (apply_transition (fst r) EnteringSyllable (snd r))
